@@ -140,8 +140,13 @@ def metric_object_reuse(chk, n, what: str):
                (aggr(n0, -2.0, 0.01), aggr(n1, 5.0, 900.0)),
                (aggr(n0 * 50, 3.0, 1.0), aggr(n1 * 7, 3.1, 2.0))]
         seq.append(seq[0])
+        if with_cov:
+            # ... and data whose covariate is CONSTANT (variance and covariance exactly 0): the unadjusted result, whatever
+            # coefficient or centre an earlier analysis by the same object used
+            seq.append((A(n0, {"x": 3.0, "c": 2.0}, {"x": 1.5, "c": 0.0}, {("c", "x"): 0.0}),
+                        A(n1, {"x": 3.3, "c": 2.0}, {"x": 2.5, "c": 0.0}, {("c", "x"): 0.0})))
         m = mk()
-        inp = dict(options=kw, covariate=with_cov, sizes=[n0, n1], sequence="one metric object analysing 5 different pairs "
+        inp = dict(options=kw, covariate=with_cov, sizes=[n0, n1], sequence="one metric object analysing 5-6 different pairs "
                    "of aggregates in a row; each compared with a fresh metric object")
         chk.case(("reuse-metric-object", alt, ev, ut, with_cov))
         chk.branch("reuse:metric-object")
@@ -158,4 +163,103 @@ def metric_object_reuse(chk, n, what: str):
                          "object with the same options on the same aggregates (state kept between calls)",
                          dict(input=inp, step=k, field=d[0][1], got=repr(d[1]), expected=repr(d[2]),
                               control=repr(c), treatment=repr(t)))
+                break
+
+
+def read_after_mutation(chk, n, what: str):
+    """tt.aggr.read_aggregates on ONE frame object: read, change the frame in place, read again — the second answer
+    must be the statistics of what the frame now holds"""
+    import numpy as np
+    import pandas as pd
+    import polars as pl
+    import tea_tasting as tt
+    rng = chk.rng
+    for i in range(n):
+        nprng = np.random.default_rng(rng.randint(0, 2**31))
+        rows = rng.choice([40, 200])
+        variant = [int(v) for v in nprng.integers(0, 2, rows)]
+        variant[:4] = [0, 0, 1, 1]
+        x = nprng.normal(5, 2, rows)
+        y = nprng.normal(1, 1, rows)
+        kind = ("pandas", "polars")[i % 2]
+        frame = pd.DataFrame({"variant": variant, "x": x, "y": y}) if kind == "pandas" else \
+            pl.DataFrame({"variant": variant, "x": x, "y": y})
+        spec = dict(has_count=True, mean_cols=("x", "y"), var_cols=("x",), cov_cols=(("x", "y"),))
+        chk.case(("read-after-mutation", kind, rows))
+        chk.branch("reuse:read_aggregates-" + kind)
+        try:
+            first = tt.aggr.read_aggregates(frame, "variant", **spec)
+            if kind == "pandas":
+                frame["x"] = frame["x"].clip(upper=5.0) * 3.0
+                frame.loc[frame["variant"] == 1, "y"] += 2.0
+                cur = {c: frame[c].to_numpy() for c in ("variant", "x", "y")}
+            else:
+                frame.extend(pl.DataFrame({"variant": [0, 1, 1], "x": [50.0, -20.0, 7.0], "y": [0.0, 3.0, 9.0]}))
+                cur = {c: frame[c].to_numpy() for c in ("variant", "x", "y")}
+            second = tt.aggr.read_aggregates(frame, "variant", **spec)
+        except Exception as ex:  # noqa: BLE001
+            chk.fail(f"{what}: read_aggregates raised", dict(input=kind, error=repr(ex)))
+            continue
+        for g in (0, 1):
+            sel = cur["variant"] == g
+            want = dict(count=int(sel.sum()), mean_x=float(cur["x"][sel].mean()), var_x=float(cur["x"][sel].var(ddof=1)),
+                        cov_xy=float(np.cov(cur["x"][sel], cur["y"][sel], ddof=1)[0, 1]))
+            a = second[g]
+            got = dict(count=a.count(), mean_x=float(a.mean("x")), var_x=float(a.var("x")), cov_xy=float(a.cov("x", "y")))
+            bad = [k for k in want if not close(got[k], want[k], 1e-9)]
+            if bad:
+                chk.fail(f"{what}: after the frame was changed in place, reading the same frame object again returns "
+                         "statistics that are not those of its current rows",
+                         dict(input=kind, variant=g, statistic=bad[0], got=got[bad[0]], expected=want[bad[0]],
+                              first_read=float(first[g].mean("x")), rows=rows))
+                break
+
+
+def aggregates_object_reuse(chk, n, what: str):
+    """A dict of Aggregates objects is analysed, the caller then UPDATES the objects (their public count_ / mean_ / var_ /
+    cov_ attributes) and analyses again; and new Aggregates are built from values read back from analysed ones.  Each
+    analysis must be the one of the statistics the objects hold at that moment."""
+    import tea_tasting as tt
+    rng = chk.rng
+    A = tt.aggr.Aggregates
+    for i in range(n):
+        alt = ("two-sided", "greater", "less")[i % 3]
+        kw = dict(alternative=alt, equal_var=bool(i & 1), use_t=bool(i & 2))
+
+        def stats(shift):
+            mx, my = rng.uniform(1, 5) + shift, rng.uniform(1, 3)
+            vx, vy = rng.uniform(0.5, 4), rng.uniform(0.2, 2)
+            return rng.randint(5, 200), {"x": mx, "y": my}, {"x": vx, "y": vy}, {("x", "y"): 0.3 * math.sqrt(vx * vy)}
+        s0, s1, t0, t1 = stats(0), stats(0.5), stats(3), stats(-2)
+        metrics = dict(mean=tt.Mean("x", **kw), ratio=tt.RatioOfMeans("x", "y", **kw))
+        objs = {0: A(s0[0], dict(s0[1]), dict(s0[2]), dict(s0[3])), 1: A(s1[0], dict(s1[1]), dict(s1[2]), dict(s1[3]))}
+        chk.case(("reuse-aggregates", alt, kw["equal_var"], kw["use_t"]))
+        chk.branch("reuse:aggregates-objects")
+        try:
+            first = {k: m.analyze(objs, 0, 1)._asdict() for k, m in metrics.items()}
+            # the caller updates the SAME objects in place
+            for g, st_ in ((0, t0), (1, t1)):
+                objs[g].count_ = st_[0]
+                objs[g].mean_.update(st_[1])
+                objs[g].var_.update(st_[2])
+                objs[g].cov_.update(st_[3])
+            second = {k: m.analyze(objs, 0, 1)._asdict() for k, m in metrics.items()}
+            fresh_objs = {0: A(t0[0], dict(t0[1]), dict(t0[2]), dict(t0[3])), 1: A(t1[0], dict(t1[1]), dict(t1[2]), dict(t1[3]))}
+            want = {k: type(m)(*(("x",) if k == "mean" else ("x", "y")), **kw).analyze(fresh_objs, 0, 1)._asdict()
+                    for k, m in metrics.items()}
+            # new objects built from values read back from analysed ones (count(), mean(), ...)
+            rebuilt = {g: A(objs[g].count(), {c: objs[g].mean(c) for c in ("x", "y")}, {c: objs[g].var(c) for c in ("x", "y")},
+                            {("x", "y"): objs[g].cov("x", "y")}) for g in (0, 1)}
+            third = {k: m.analyze(rebuilt, 0, 1)._asdict() for k, m in metrics.items()}
+        except Exception as ex:  # noqa: BLE001
+            chk.fail(f"{what}: analysis of a dict of Aggregates raised", dict(options=kw, error=repr(ex)))
+            continue
+        for label, got in (("after the caller updated the Aggregates objects in place", second),
+                           ("for Aggregates rebuilt from values read back from analysed objects", third)):
+            d = first_diff({(k, f): v for k, r in got.items() for f, v in r.items()},
+                           {(k, f): v for k, r in want.items() for f, v in r.items()}, rel=1e-12)
+            if d is not None:
+                chk.fail(f"{what}: {label} the result is not the analysis of the statistics they hold",
+                         dict(options=kw, metric=d[0][0], field=d[0][1], got=repr(d[1]), expected=repr(d[2]),
+                              first_analysis=repr(first[d[0][0]][d[0][1]])))
                 break
